@@ -1,11 +1,13 @@
 """Adapter: spec/Transform.tla  <->  desper.Transform2D / desper.Transform3D (real classes from the working tree)."""
+import itertools
+
 from ..replay import guarded, exc_name
-from ..tla import fmap
 
 EVENTS = ('on_position_change', 'on_rotation_change', 'on_scale_change')
 PROP_OF = {'on_position_change': 'position', 'on_rotation_change': 'rotation', 'on_scale_change': 'scale'}
 PROPS = ('position', 'rotation', 'scale')
 IMMUTABLE = (tuple, int, float, str, frozenset, type(None))
+CLAMP_ROT = 10            # ClampRot of the specification
 
 
 def canon(x):
@@ -20,20 +22,29 @@ def canon(x):
 
 
 def make_listener_class(desper, env, name, events):
-    """Logging listener decorated with the real event_handler; one method per mapped event."""
+    """Logging listener decorated with the real event_handler; one method per mapped event.
+
+    Inside the callback it reads the notified property of the notifying transform (the harness makes every
+    assignment, so it knows which transform that is) and then behaves as the model's `beh` says."""
     ns = {}
 
     def make_cb(ev):
         def cb(self, *args, **kw):
+            t = env.cur[-1]
+            read = getattr(env.tr[t], PROP_OF[ev])
             if len(args) == 1 and not kw:
-                env.log.append((self.name, ev, args[0]))
+                env.log.append((self.name, ev, args[0], read))
+                env.behave(self.name, t, PROP_OF[ev], args[0])
             else:
-                env.log.append((self.name, ev, ('BADARGS', len(args), tuple(sorted(kw)))))
+                env.log.append((self.name, ev, ('BADARGS', len(args), tuple(sorted(kw))), read))
         cb.__name__ = ev
         return cb
 
     for ev in events:
         ns[ev] = make_cb(ev)
+    # iteration order of the dispatcher's listener set is steered through the hash (both orders get realised)
+    ns['__hash__'] = lambda self: env.rank[self.name]
+    ns['__eq__'] = lambda self, other: self is other
     return desper.event_handler(*events)(type('Listener_' + name, (), ns))
 
 
@@ -44,6 +55,8 @@ class TransformAdapter:
         self.desper = desper
         self.kinds = dict(kinds)
         self.n = 0
+        self.resets = 0
+        self.orders = set()
         V2, V3 = desper.math.Vec2, desper.math.Vec3
         # vectors identified by the model's tokens: Vec instances and plain tuples ("any vectors")
         self.vec = {
@@ -72,13 +85,38 @@ class TransformAdapter:
             pass
         env = self.env = Env()
         self.n = 0                # per behaviour: the int/float choice depends on the history only
+        self.resets += 1
         env.log = []
         env.tr = {}
+        env.cur = []              # transforms being assigned, innermost last
         env.listeners = {}
-        for l, evs in sorted(init['subs'].items()):
-            o = make_listener_class(self.desper, env, l, sorted(evs))()
+        env.beh = {l: tuple(b) for l, b in init['beh'].items()}
+        env.behave = self._behave
+        ls = sorted(init['subs'])
+        perms = list(itertools.permutations(range(1, len(ls) + 1)))
+        perm = perms[self.resets % len(perms)]
+        env.rank = {l: perm[i] * 7 + 1 for i, l in enumerate(ls)}
+        for l in ls:
+            o = make_listener_class(self.desper, env, l, sorted(init['subs'][l]))()
             o.name = l
             env.listeners[l] = o
+
+    def _assign(self, t, prop, value):
+        env = self.env
+        env.cur.append(t)
+        try:
+            setattr(env.tr[t], prop, value)
+        finally:
+            env.cur.pop()
+
+    def _behave(self, l, t, prop, payload):
+        """"clamp": told a value other than the clamp value, assign the clamp value from inside the callback."""
+        kind, p, tok = self.env.beh[l]
+        if kind != 'clamp' or p != prop:
+            return
+        c = ('n', CLAMP_ROT) if (self.kinds[t] == '2d' and prop == 'rotation') else ('v', tok)
+        if canon(payload) != self.model_canon(t, c):
+            self._assign(t, prop, self.real(t, c))
 
     def _build(self, pre):
         env = self.env
@@ -101,7 +139,7 @@ class TransformAdapter:
             if name == 'Build':
                 self._build(pre)
             elif name in ('SetPosition', 'SetRotation', 'SetScale'):
-                setattr(env.tr[args[0]], name[3:].lower(), self.real(args[0], args[1]))
+                self._assign(args[0], name[3:].lower(), self.real(args[0], args[1]))
             elif name == 'AddListener':
                 env.tr[args[0]].add_handler(env.listeners[args[1]])
             elif name == 'RemoveListener':
@@ -112,20 +150,21 @@ class TransformAdapter:
         _v, ex = guarded(call)
         obs = {'ret': 'ok' if ex is None else exc_name(ex)}
         del ex
+        env.cur = []
         log = list(env.log)
-        obs['log'] = tuple(sorted(((l, ev, canon(x)) for l, ev, x in log), key=repr))
+        # deliveries in order: who, which event, the value told, the value a read returned inside the callback
+        obs['log'] = tuple((l, ev, canon(x), canon(r)) for l, ev, x, r in log)
+        # "the very value a read of the property returns": a vector handed to a listener is the object the read
+        # returns at that moment, whenever the two are equal at all (floats compare by value only)
+        obs['ident'] = tuple(isinstance(x, (int, float)) or x is r or canon(x) != canon(r) for _l, _ev, x, r in log)
+        if len({l for l, _e, _x, _r in log}) >= 2:
+            self.orders.add('>'.join(l for l, _e, _x, _r in log))
         if not env.tr:
             obs['reads'] = None
             return obs
         reads = {t: {p: getattr(tr, p) for p in PROPS} for t, tr in env.tr.items()}
         obs['reads'] = {t: {p: canon(x) for p, x in r.items()} for t, r in reads.items()}
         obs['reg'] = {t: frozenset(l for l, o in env.listeners.items() if tr.is_handler(o)) for t, tr in env.tr.items()}
-        # "the very value a read of the property returns right afterwards": for vector values the object
-        # handed to the listener is the object the read returns (floats compare by value only)
-        if name.startswith('Set'):
-            t = args[0]
-            obs['ident'] = all(isinstance(x, (int, float)) or x is reads[t].get(PROP_OF.get(ev))
-                               for _l, ev, x in log)
         # no two transforms hand out one and the same *mutable* object (shared defaults would show here)
         slots = [(t, p, x) for t, r in reads.items() for p, x in r.items()]
         obs['shared_mutable'] = any(x is y and not isinstance(x, IMMUTABLE)
@@ -133,16 +172,19 @@ class TransformAdapter:
         return obs
 
     def expect(self, name, args, pre, post):
-        exp = {'ret': 'ok'}
         t = post['call']['t']
-        exp['log'] = tuple(sorted(((e[0], e[1], self.model_canon(t, e[2]))
-                                   for e, n in fmap(post['log']).items() for _ in range(n)), key=repr))
+        exp = {'ret': 'ok',
+               'log': tuple((e['l'], e['ev'], self.model_canon(t, e['sent']), self.model_canon(t, e['read']))
+                            for e in post['log']),
+               'ident': tuple(True for _e in post['log'])}
         if not post['built']:
             exp['reads'] = None
             return exp
-        exp['reads'] = {t: {p: self.model_canon(t, post['stored'][t][p]) for p in PROPS} for t in self.kinds}
-        exp['reg'] = {t: frozenset(post['reg'][t]) for t in self.kinds}
-        if name.startswith('Set'):
-            exp['ident'] = True
+        exp['reads'] = {u: {p: self.model_canon(u, post['stored'][u][p]) for p in PROPS} for u in self.kinds}
+        exp['reg'] = {u: frozenset(post['reg'][u]) for u in self.kinds}
         exp['shared_mutable'] = False
         return exp
+
+    def finish(self, stats):
+        s = stats.extra.setdefault('listener_orders_realised', set())
+        s |= self.orders
